@@ -343,5 +343,5 @@ def machine_factory(nports):
 
 def subchecks(tier):
     big = tier == "thorough"
-    return [Sub(f"ports={n}", body, machine=machine_factory(n), n=2500 if big else 600, steps=40, shards=4 if big else 2)
+    return [Sub(f"ports={n}", body, machine=machine_factory(n), n=12_000 if big else 600, steps=40, shards=4 if big else 2)
             for n in (1, 2, 3, 4)]
